@@ -447,9 +447,9 @@ type progObj struct {
 	priv  int //nolint:unused
 }
 
-func (o progObj) Greeting() string       { return "hi " + o.Name }
-func (o progObj) Hello(s string) string  { return "hello " + s }
-func (o *progObj) PtrMethod() string     { return "ptr" }
+func (o progObj) Greeting() string      { return "hi " + o.Name }
+func (o progObj) Hello(s string) string { return "hello " + s }
+func (o *progObj) PtrMethod() string    { return "ptr" }
 
 var errInjected = errors.New("injected fault")
 
@@ -495,8 +495,14 @@ func progContext(variant int, ts *tickState) pongo2.Context {
 		"incname":   "/lazy.tpl",
 		"greet":     func(s string) string { return "hey " + s },
 		"twice":     func(i int) int { return 2 * i },
-		"sum":       func(xs ...int) int { t := 0; for _, x := range xs { t += x }; return t },
-		"valfn":     func(v *pongo2.Value) *pongo2.Value { return pongo2.AsValue(v.String() + "!") },
+		"sum": func(xs ...int) int {
+			t := 0
+			for _, x := range xs {
+				t += x
+			}
+			return t
+		},
+		"valfn": func(v *pongo2.Value) *pongo2.Value { return pongo2.AsValue(v.String() + "!") },
 		"fails": func(i int) (int, error) {
 			if i == 0 {
 				return 0, errors.New("fails(0)")
